@@ -317,12 +317,35 @@ class Prov:
                 return ("elem", self.term(fn.value, env, depth + 1), self.term(e.args[0], env, depth + 1))
             tg = self.calls.callee(self.func, e)
             for t in tg:
-                if t.kind == "func" and t.func is not None and t.func.name == "ensure_list" and e.args:
+                if t.kind == "func" and t.func is not None and len(e.args) == 1 and not e.keywords and _hands_containers_back(self.prog, t.func):
+                    # ensure_list and its like: an array or object comes back as the very object given, so positions in the result
+                    # are positions in the argument
                     return self.term(e.args[0], env, depth + 1)
             return ("opaque", norm(e)[:50])
         if isinstance(e, ast.BinOp):
             return ("opaque", "arith:" + norm(e)[:40])
         return ("opaque", norm(e)[:40])
+
+
+_HCB = {}
+
+
+def _hands_containers_back(prog, g):
+    """g(x) is x for every list and dict x (evaluated by sa/tokeval.py); what it does to scalars is its own business."""
+    key = (id(prog), g.qual)
+    if key not in _HCB:
+        ok = False
+        if len(g.params) == 1 and g.cls is None:
+            from .tokeval import Ev, Undecided, PyRaise
+            try:
+                ok = True
+                for x in ([], [1, "a"], [[1]], {}, {"a": 1}):
+                    if Ev(prog, fuel=2000).call_func(g, [x], {}) is not x:
+                        ok = False
+            except (Undecided, PyRaise, RecursionError):
+                ok = False
+        _HCB[key] = ok
+    return _HCB[key]
 
 
 def subst(t, binding):
